@@ -468,7 +468,13 @@ class Name(str):
     def _unsup(self, *a, **k):
         raise Unsupported("unmodelled string operation on an opaque name")
 
-    __len__ = __getitem__ = __iter__ = _unsup
+    def __getitem__(self, k):
+        # name[:-1] of a name known to end in 'h' (the branch `endswith("h")` was taken): its stem, like removesuffix("h")
+        if isinstance(k, slice) and k.start is None and k.stop == -1 and k.step is None and self.category in ("endh", "hexh"):
+            return self.stem
+        raise Unsupported("unmodelled string operation on an opaque name")
+
+    __len__ = __iter__ = _unsup
     __lt__ = __le__ = __gt__ = __ge__ = _unsup
 
     def __contains__(self, x):
